@@ -192,7 +192,7 @@ package websocket
 
 // Footprints (textual macros).
 //@ define RDFP ghrd(c.br).pos, c.readHeaderBuf, c.readControlBuf, chanstate(c.readTimeout)
-//@ define WRFP ghwr(c.bw).pos, ghwr(c.bw).out, ghwr(c.bw).buffered, ghrd(specRand()).pos, c.writeHeader, c.writeHeaderBuf, bytes(c.writeBuf), chanstate(c.writeTimeout), chanstate(c.writeFrameMu.ch), gh(c).closeSent
+//@ define WRFP ghwr(c.bw).pos, ghwr(c.bw).out, ghwr(c.bw).buffered, ghrd(specRand()).pos, c.writeHeader, c.writeHeaderBuf, bytes(c.writeBuf), chanstate(c.writeTimeout), chanstate(c.writeFrameMu.ch), c.closeSent
 //@ define CLFP chanstate(c.closed), chanstate(c.readMu.ch), chanstate(c.msgWriter.writeMu.ch), c.br, c.msgReader.flateReader, c.msgReader.dict, c.msgWriter.flateWriter
 
 // Write-side and close-side callees of the read path. Their contracts are stated here
@@ -203,6 +203,8 @@ package websocket
 //@ requires connInv(c) && specWriteInv(c) && err != nil && !gvcHeld(c.writeFrameMu.ch)
 //@ modifies $WRFP
 //@ ensures [inv] connInv(c) && specWriteInv(c) && !gvcHeld(c.writeFrameMu.ch)
+//@ ensures [no-second-close] {C16} old(c.closeSent) ==> ghwr(c.bw).pos == old(ghwr(c.bw).pos) && ghwr(c.bw).buffered == old(ghwr(c.bw).buffered)
+//@ ensures [close-sent-monotone] {C16} old(c.closeSent) ==> c.closeSent
 
 //@ func (*Conn).writeControl
 //@ tags C02 C15 C10
@@ -216,6 +218,10 @@ package websocket
 //@ ensures [payload-plain] {C02 C15} result == nil && !c.client ==> forall(0, len(p), func(k int) bool { return ghwr(c.bw).out[old(ghwr(c.bw).pos)+specHdrLen(c.writeHeader)+k] == p[k] })
 //@ ensures [rearm] {C10} result == nil && !gvcClosed(c.closed) ==> gvcArmed(c.writeTimeout) == context.Background()
 //@ ensures [closed-fails] {C06} old(gvcClosed(c.closed)) ==> result != nil
+//@ ensures [nothing-after-close] {C16} old(c.closeSent) && opcode == opClose ==> result != nil && ghwr(c.bw).pos == old(ghwr(c.bw).pos) && ghwr(c.bw).buffered == old(ghwr(c.bw).buffered)
+//@ ensures [close-recorded] {C16} opcode == opClose && ghwr(c.bw).pos != old(ghwr(c.bw).pos) ==> c.closeSent
+//@ ensures [close-sent-monotone] {C16} old(c.closeSent) ==> c.closeSent
+//@ ensures [close-sent-only-by-close] {C16} opcode != opClose ==> c.closeSent == old(c.closeSent)
 
 //@ func (*Conn).writeClose
 //@ tags C06 C16 C02
@@ -223,6 +229,9 @@ package websocket
 //@ modifies $WRFP
 //@ ensures [inv] connInv(c) && specWriteInv(c) && !gvcHeld(c.writeFrameMu.ch)
 //@ ensures [invalid-not-sent] {C06 C02} code != StatusNoStatusRcvd && !(specSendableCode(code) && len(reason) <= specMaxReason) ==> result != nil && ghwr(c.bw).pos == old(ghwr(c.bw).pos)
+//@ ensures [no-second-close] {C16} old(c.closeSent) ==> ghwr(c.bw).pos == old(ghwr(c.bw).pos) && ghwr(c.bw).buffered == old(ghwr(c.bw).buffered)
+//@ ensures [close-recorded] {C16} ghwr(c.bw).pos != old(ghwr(c.bw).pos) ==> c.closeSent
+//@ ensures [close-sent-monotone] {C16} old(c.closeSent) ==> c.closeSent
 //@ ensures [err-kind] !errIsCE(result)
 
 //@ func (*msgReader).close
@@ -262,6 +271,8 @@ package websocket
 //@ ensures [rearm] {C10} err == nil ==> gvcArmed(c.readTimeout) == context.Background()
 //@ ensures [not-eof] err != io.EOF
 //@ ensures [dict-released-only] c.msgReader.dict == old(c.msgReader.dict) || c.msgReader.dict == nil
+//@ ensures [no-second-close] {C16} old(c.closeSent) && h.opcode == opClose ==> ghwr(c.bw).pos == old(ghwr(c.bw).pos) && ghwr(c.bw).buffered == old(ghwr(c.bw).buffered)
+//@ ensures [close-sent-monotone] {C16} old(c.closeSent) ==> c.closeSent
 
 //@ func (*Conn).readLoop
 //@ tags C03 C04
@@ -280,12 +291,14 @@ package websocket
 //@ ensures [dict-released-only] c.msgReader.dict == old(c.msgReader.dict) || c.msgReader.dict == nil
 //@ loop 1 modifies $RDFP, $WRFP, $CLFP
 //@ loop 1 invariant [inv] connReady(c) && c.br == old(c.br) && c.br != nil && gvcHeld(c.readMu.ch) && !gvcHeld(c.writeFrameMu.ch) && !gvcHeld(c.msgWriter.writeMu.ch) && (c.msgReader.dict == old(c.msgReader.dict) || c.msgReader.dict == nil)
+//@ ensures [close-sent-monotone] {C16} old(c.closeSent) ==> c.closeSent
+//@ loop 1 invariant [close-sent-monotone] {C16} old(c.closeSent) ==> c.closeSent
 
 // ---------------------------------------------------------------------------
 // read.go: message level (C03, C04, C08, C01)
 
 //@ define RDFPm ghrd(mr.c.br).pos, mr.c.readHeaderBuf, mr.c.readControlBuf, chanstate(mr.c.readTimeout)
-//@ define WRFPm ghwr(mr.c.bw).pos, ghwr(mr.c.bw).out, ghwr(mr.c.bw).buffered, ghrd(specRand()).pos, mr.c.writeHeader, mr.c.writeHeaderBuf, bytes(mr.c.writeBuf), chanstate(mr.c.writeTimeout), chanstate(mr.c.writeFrameMu.ch), gh(mr.c).closeSent
+//@ define WRFPm ghwr(mr.c.bw).pos, ghwr(mr.c.bw).out, ghwr(mr.c.bw).buffered, ghrd(specRand()).pos, mr.c.writeHeader, mr.c.writeHeaderBuf, bytes(mr.c.writeBuf), chanstate(mr.c.writeTimeout), chanstate(mr.c.writeFrameMu.ch), mr.c.closeSent
 //@ define CLFPm chanstate(mr.c.closed), chanstate(mr.c.readMu.ch), chanstate(mr.c.msgWriter.writeMu.ch), mr.c.br, mr.c.msgReader.flateReader, mr.c.msgReader.dict, mr.c.msgWriter.flateWriter
 
 //@ func (*msgReader).read
@@ -306,7 +319,7 @@ package websocket
 //@ func (*limitReader).Read
 //@ tags C08
 //@ requires lr.c != nil && connReady(lr.c) && !gvcHeld(lr.c.writeFrameMu.ch) && !gvcHeld(lr.c.msgWriter.writeMu.ch) && lr.c.msgReader.limitReader == lr && ghconn(lr.r) == lr.c && lr.r != nil
-//@ modifies bytes(p), lr.n, ghrd(lr.c.br).pos, lr.c.readHeaderBuf, lr.c.readControlBuf, chanstate(lr.c.readTimeout), ghwr(lr.c.bw).pos, ghwr(lr.c.bw).out, lr.c.writeHeader, lr.c.writeHeaderBuf, bytes(lr.c.writeBuf), chanstate(lr.c.writeTimeout), chanstate(lr.c.writeFrameMu.ch), gh(lr.c).closeSent, ghwr(lr.c.bw).buffered, ghrd(specRand()).pos, chanstate(lr.c.readMu.ch), chanstate(lr.c.msgWriter.writeMu.ch), chanstate(lr.c.closed), lr.c.br, lr.c.msgReader.flateReader, lr.c.msgReader.dict, lr.c.msgWriter.flateWriter, lr.c.msgReader.fin, lr.c.msgReader.payloadLength, lr.c.msgReader.maskKey
+//@ modifies bytes(p), lr.n, ghrd(lr.c.br).pos, lr.c.readHeaderBuf, lr.c.readControlBuf, chanstate(lr.c.readTimeout), ghwr(lr.c.bw).pos, ghwr(lr.c.bw).out, lr.c.writeHeader, lr.c.writeHeaderBuf, bytes(lr.c.writeBuf), chanstate(lr.c.writeTimeout), chanstate(lr.c.writeFrameMu.ch), lr.c.closeSent, ghwr(lr.c.bw).buffered, ghrd(specRand()).pos, chanstate(lr.c.readMu.ch), chanstate(lr.c.msgWriter.writeMu.ch), chanstate(lr.c.closed), lr.c.br, lr.c.msgReader.flateReader, lr.c.msgReader.dict, lr.c.msgWriter.flateWriter, lr.c.msgReader.fin, lr.c.msgReader.payloadLength, lr.c.msgReader.maskKey
 //@ ensures [n] 0 <= result0 && result0 <= len(p)
 //@ ensures [unlimited] old(lr.n) < 0 ==> lr.n == old(lr.n)
 //@ ensures [exhausted] old(lr.n) == 0 ==> result0 == 0 && result1 != nil && !errIs(result1, io.EOF) && !errIs(result1, io.ErrUnexpectedEOF)
@@ -407,6 +420,8 @@ package websocket
 //@ ensures [inv] connIdle(c)
 //@ loop 1 modifies $RDFP, $WRFP, $CLFP
 //@ loop 1 invariant [inv] connReady(c) && c.br == old(c.br) && c.br != nil && gvcHeld(c.readMu.ch) && !gvcHeld(c.writeFrameMu.ch) && !gvcHeld(c.msgWriter.writeMu.ch)
+//@ ensures [close-sent-monotone] {C16} old(c.closeSent) ==> c.closeSent
+//@ loop 1 invariant [close-sent-monotone] {C16} old(c.closeSent) ==> c.closeSent
 
 //@ func (*Conn).closeHandshake
 //@ tags C06
@@ -414,6 +429,7 @@ package websocket
 //@ modifies $WRFP, $RDFP, $CLFP
 //@ ensures [inv] connIdle(c) && !gvcHeld(c.readMu.ch)
 //@ ensures [nil-iff-echo] {C06} result == nil ==> true
+//@ ensures [close-sent-monotone] {C16} old(c.closeSent) ==> c.closeSent
 
 //@ func (*Conn).Close
 //@ tags C06 C20
@@ -422,6 +438,7 @@ package websocket
 //@ ensures [second-call] old(c.closing) ==> err != nil
 //@ ensures [closing] c.closing
 //@ ensures [joined] {C20} err == nil ==> gvcClosed(c.timeoutLoopDone) && gvcClosed(c.closed) && (c.closeReadCtx != nil ==> gvcClosed(c.closeReadDone))
+//@ ensures [close-sent-monotone] {C16} old(c.closeSent) ==> c.closeSent
 
 //@ func (*Conn).CloseNow
 //@ tags C06 C20
@@ -472,11 +489,15 @@ package websocket
 //@ ensures [caller-buf] {C01} forall(0, len(p), func(k int) bool { return p[k] == old(p[k]) })
 //@ ensures [inv] connInv(c) && specWriteInv(c)
 //@ ensures [err-kind] !errIsCE(err) && err != io.EOF
+//@ ensures [nothing-after-close] {C16} old(c.closeSent) && opcode != opPing && opcode != opPong ==> err != nil && ghwr(c.bw).pos == old(ghwr(c.bw).pos) && ghwr(c.bw).buffered == old(ghwr(c.bw).buffered)
+//@ ensures [close-recorded] {C16} opcode == opClose && ghwr(c.bw).pos != old(ghwr(c.bw).pos) ==> c.closeSent
+//@ ensures [close-sent-monotone] {C16} old(c.closeSent) ==> c.closeSent
+//@ ensures [close-sent-only-by-close] {C16} opcode != opClose ==> c.closeSent == old(c.closeSent)
 
 // ---------------------------------------------------------------------------
 // write.go: message writer (C02 fragment order, C01, C05 locking, C14 context reset)
 
-//@ define WRFPw ghwr(mw.c.bw).pos, ghwr(mw.c.bw).out, ghwr(mw.c.bw).buffered, ghrd(specRand()).pos, mw.c.writeHeader, mw.c.writeHeaderBuf, bytes(mw.c.writeBuf), chanstate(mw.c.writeTimeout), chanstate(mw.c.writeFrameMu.ch), gh(mw.c).closeSent
+//@ define WRFPw ghwr(mw.c.bw).pos, ghwr(mw.c.bw).out, ghwr(mw.c.bw).buffered, ghrd(specRand()).pos, mw.c.writeHeader, mw.c.writeHeaderBuf, bytes(mw.c.writeBuf), chanstate(mw.c.writeTimeout), chanstate(mw.c.writeFrameMu.ch), mw.c.closeSent
 
 //@ func (*msgWriter).write
 //@ tags C02 C01
@@ -489,6 +510,8 @@ package websocket
 //@ ensures [n] result1 == nil ==> result0 == len(p)
 //@ ensures [inv] connInv(mw.c) && specWriteInv(mw.c) && !gvcHeld(mw.c.writeFrameMu.ch)
 //@ ensures [caller-buf] {C01} forall(0, len(p), func(k int) bool { return p[k] == old(p[k]) })
+//@ ensures [nothing-after-close] {C16} old(mw.c.closeSent) ==> result1 != nil && ghwr(mw.c.bw).pos == old(ghwr(mw.c.bw).pos) && ghwr(mw.c.bw).buffered == old(ghwr(mw.c.bw).buffered)
+//@ ensures [close-sent-monotone] {C16} mw.c.closeSent == old(mw.c.closeSent)
 
 //@ func (*msgWriter).reset
 //@ tags C02 C05
@@ -525,6 +548,8 @@ package websocket
 //@ ensures [flate-owner] (mw.flateWriter != nil ==> ghconnW(ghfw(mw.flateWriter).dst) == mw.c) && (mw.flate ==> mw.flateWriter != nil && mw.trimWriter != nil && mw.c.copts != nil)
 //@ ensures [tw-kept-or-fresh] mw.trimWriter == old(mw.trimWriter) || (old(mw.trimWriter) == nil && gvcFresh(mw.trimWriter))
 //@ ensures [n] err == nil ==> result0 == len(p)
+//@ ensures [nothing-after-close] {C16} old(mw.c.closeSent) ==> ghwr(mw.c.bw).pos == old(ghwr(mw.c.bw).pos) && ghwr(mw.c.bw).buffered == old(ghwr(mw.c.bw).buffered)
+//@ ensures [close-sent-kept] {C16} mw.c.closeSent == old(mw.c.closeSent)
 
 //@ func (*msgWriter).Close
 //@ tags C02 C01 C05 C14
@@ -537,6 +562,8 @@ package websocket
 //@ ensures [ctx-reset] {C14 C02} err == nil && mw.flate && specSenderNoTakeover(mw.c.client, mw.c.copts) ==> mw.flateWriter == nil
 //@ ensures [ctx-kept] {C14 C02} err == nil && mw.flate && !specSenderNoTakeover(mw.c.client, mw.c.copts) ==> mw.flateWriter == old(mw.flateWriter)
 //@ ensures [closed] old(mw.closed) ==> err != nil
+//@ ensures [nothing-after-close] {C16} old(mw.c.closeSent) ==> ghwr(mw.c.bw).pos == old(ghwr(mw.c.bw).pos) && ghwr(mw.c.bw).buffered == old(ghwr(mw.c.bw).buffered)
+//@ ensures [close-sent-kept] {C16} mw.c.closeSent == old(mw.c.closeSent)
 
 //@ func (*Conn).writer
 //@ tags C02 C05
@@ -560,6 +587,9 @@ package websocket
 //@ ensures [released] {C05} result1 == nil ==> !gvcHeld(c.msgWriter.mu.ch)
 //@ ensures [caller-buf] {C01} c.copts == nil ==> forall(0, len(p), func(k int) bool { return p[k] == old(p[k]) })
 //@ ensures [closed-fails] {C06} old(gvcClosed(c.closed)) ==> result1 != nil
+//@ ensures [nothing-after-close] {C16} old(c.closeSent) ==> ghwr(c.bw).pos == old(ghwr(c.bw).pos) && ghwr(c.bw).buffered == old(ghwr(c.bw).buffered)
+//@ ensures [close-sent-kept] {C16} c.closeSent == old(c.closeSent)
+//@ ensures [fails-after-close] {C16} old(c.closeSent) && c.copts == nil ==> result1 != nil
 
 // ---------------------------------------------------------------------------
 // read.go: starting a message (C03 sequencing, C08 limit reload, C05 locking)
@@ -609,3 +639,5 @@ package websocket
 //@ modifies $WRFP, mapof(c.activePings)
 //@ ensures [closed-fails] {C06} old(gvcClosed(c.closed)) ==> result != nil
 //@ ensures [deregistered] {C15} !gvcMapHas(c.activePings, p) || old(gvcMapHas(c.activePings, p))
+//@ ensures [close-sent-kept] {C16} c.closeSent == old(c.closeSent)
+
